@@ -267,7 +267,7 @@ fn judge_lifted(off: &Sess, on: &Sess, bits: u8, word: &[&Syl], at: usize, k: us
         c["backspace_while_the_sign_waits_again"] = json!({"syllable": at, "after_cluster_keys": k, "syllable_desc": word[at].desc});
         c
     };
-    let r = (|| -> Result<(String, String, bool, String, String), Panic> {
+    let r = (|| -> Result<(String, String, bool, String, String, String), Panic> {
         let (mut a, mut b) = (String::new(), String::new());
         for s in &word[..at] {
             for &(kk, m) in &s.uni {
@@ -284,7 +284,7 @@ fn judge_lifted(off: &Sess, on: &Sess, bits: u8, word: &[&Syl], at: usize, k: us
         for &(kk, m) in s.pre.iter().chain(s.rest[..k].iter()) {
             b = text_of(&on.key(kk, m, 0)?);
         }
-        let _ = b;
+        let shown_while_waiting = b.clone();
         let after_bs = text_of(&on.bs(false)?);
         let flag = on.ongoing()?;
         // the word goes on: the next key of the cluster
@@ -293,11 +293,16 @@ fn judge_lifted(off: &Sess, on: &Sess, bits: u8, word: &[&Syl], at: usize, k: us
         let b2 = text_of(&on.key(kk, m, 0)?);
         off.finish()?;
         on.finish()?;
-        Ok((a, after_bs, flag, a2, b2))
+        Ok((a, after_bs, flag, a2, b2, shown_while_waiting))
     })();
     t.lifted_backspace += 1;
     match r {
-        Ok((a, after_bs, flag, a2, b2)) => {
+        Ok((a, after_bs, flag, a2, b2, shown_while_waiting)) => {
+            // the sign that waits again is not shown either
+            if shown_while_waiting != a {
+                out.violation("pending-sign-not-shown", format!("c14:lifted-sign-shown:{}", word[at].desc.split('+').nth(1).unwrap_or("")), case(),
+                              format!("{a:?} while the sign waits again (the cluster so far, without the sign)"), format!("{shown_while_waiting:?}"));
+            }
             if after_bs != a || !flag || a2 != b2 {
                 out.violation("pending-sign-discarded-by-backspace", format!("c14:lifted-sign-backspace:{}", word[at].desc.split('+').nth(1).unwrap_or("")), case(),
                               format!("text {a:?} (the cluster so far, without the sign), ongoing=true, then {a2:?} after the next key"), format!("text {after_bs:?}, ongoing={flag}, then {b2:?}"));
@@ -442,6 +447,11 @@ impl Prop for C14 {
                     });
                     t.with_bystanders += 1;
                     judge(&off2, &on2, bits, &word, at, out, &mut t);
+                    for sy in 0..word.len() {
+                        for &k in &word[sy].lifted_at {
+                            judge_lifted(&off2, &on2, bits, &word, sy, k, out, &mut t);
+                        }
+                    }
                 }
             }
         }
